@@ -94,6 +94,7 @@ func invParser(p *Parser) bool {
 //@ func (*Parser).checkASCIICloseQuote
 //@ requires invParser(p) && 0 <= idx
 //@ ensures [pos] result0 ==> idx < result1 && result1 <= len(p.data)
+//@ loop 1 invariant [n] idx < nidx && nidx <= len(p.data)
 
 //@ func (*Parser).nextItemSize
 //@ requires invParser(p)
